@@ -247,6 +247,8 @@ func checkC03(c *Check) {
 	headersOwnBacking(c, "C03.R3", R)
 	// … over a TLS configuration that carries the trusted CA (C20.R4's pool rule)
 	poolInsertIsFinal(c, "C03.R5")
+	// the cookie name, client id and callback the round trip relies on are those of the handler's own filter
+	handlerConfigOwn(c, "C03.R1", R)
 
 	// ---- R4
 	n := 0
